@@ -4,7 +4,9 @@
      12 wf_unref   [accepted_unref]    from checkBlock's "previous ancestors" loop;
      13 wf_shared  [accepted_shared]   from checkBlock's ancestor scan (the code's rule is stronger: after the first
                                        common ancestor the following slots must agree too);
-     11 wf_distinct [accepted_distinct] for every height but 440 (the code skips both duplicate tests there), for
+     11 wf_distinct [accepted_distinct] wherever the code runs its duplicate tests ([dup_checked]: height <> 440, or
+                                       height 440 not pinned by a checkpoint; since /repo 7c12eb4, finding R22), hence at
+                                       EVERY height of a configuration without checkpoints ([accepted_distinct_no_cp]), for
                                        commitments whose identity classes are coherent (equal under Commitment.Equals =>
                                        equal (BaseHash, Nonce, NonceExtra): true of real commitments, not expressible
                                        for the symbolic ones).  The code's rule compares (BaseHash, Nonce, NonceExtra)
@@ -13,7 +15,9 @@
      10 wf_nsides  [accepted_nsides_refuted]  neither PrevalidateBlock nor checkBlock counts the side blocks
                                               (only the wire decoder does: [decoded_nsides]);
       9 wf_size    [accepted_size_refuted]    open finding R13b;
-     11 at height 440 [accepted_distinct_440_refuted]  the modelled exemption, on a chain of 440 blocks.
+     11 at height 440 of mainnet [accepted_distinct_440_mainnet_refuted]  by design: the exemption of mainnet's
+                                              historical block 440, which the checkpoints pin.  On the verification network
+                                              the former witness is now refused: [twice_440_verifnet_rejected].
    Combined: [accepted_wellformed], [accepted_wellformed_code]. *)
 From Virel Require Import Lib.Config Lib.U64 Lib.AMap Lib.CheckLib Model.Ledger Model.Node Spec.WellFormed
   Proofs.AMapLemmas Proofs.Conservation Proofs.WellFormedProof Proofs.ForkChoice Gen.Params.
@@ -128,16 +132,28 @@ Proof.
   - apply IH; [|exact H2]. intros s1 s2 H1' H2'. apply Hc; right; assumption.
 Qed.
 
+(* where PrevalidateBlock runs its two duplicate tests (606, 607): everywhere but at height 440 under a checkpoint *)
+Definition dup_checked (cfg : config) (b : block) : Prop :=
+  b_height b <> 440 \/ is_secured cfg (b_height b) = false.
+
+Lemma is_secured_no_cp cfg h : cp_max cfg = 0 -> is_secured cfg h = false.
+Proof. intros H. unfold is_secured. rewrite H. reflexivity. Qed.
+
+Lemma dup_checked_no_cp cfg b : cp_max cfg = 0 -> dup_checked cfg b.
+Proof. intros H. right. apply is_secured_no_cp. exact H. Qed.
+
 Section WF2.
 Variable cfg : config.
 Variable genesis_addr team_key : N.
 
 Lemma prevalidate_dup_free b now :
-  prevalidate_block cfg team_key b now = Ok tt -> b_height b <> 440 -> sides_dup_free (b_sides b) = true.
+  prevalidate_block cfg team_key b now = Ok tt -> dup_checked cfg b -> sides_dup_free (b_sides b) = true.
 Proof.
   unfold prevalidate_block. intros H Hh.
   guard_inv H. guard_inv H. guard_inv H. guard_inv H. guard_inv H. bind_inv H. bind_inv H.
-  apply N.eqb_neq in Hh. rewrite Hh in E0. guard_inv E0.
+  assert (Hx : (b_height b =? 440) && is_secured cfg (b_height b) = false).
+  { destruct Hh as [Hh|Hh]; [apply N.eqb_neq in Hh; rewrite Hh; reflexivity|rewrite Hh; apply Bool.andb_false_r]. }
+  rewrite Hx in E0. guard_inv E0.
   destruct (sides_dup_free (b_sides b)); [reflexivity|discriminate].
 Qed.
 
@@ -172,10 +188,10 @@ Proof.
   exact (check_sides_shared _ _ _ _ Hs).
 Qed.
 
-(* clause 11, every height but 440 *)
+(* clause 11, wherever the duplicate tests run *)
 Theorem accepted_distinct n b now n' amb :
   deliver cfg genesis_addr team_key n b now = (n', Accepted, amb) ->
-  b_height b <> 440 -> commits_coherent (b_sides b) -> wf_distinct b = true.
+  dup_checked cfg b -> commits_coherent (b_sides b) -> wf_distinct b = true.
 Proof.
   intros H Hh Hc. destruct (deliver_accepted_inv _ _ _ _ _ H) as (Hpre & _).
   exact (dup_free_distinct _ Hc (prevalidate_dup_free _ _ Hpre Hh)).
@@ -184,13 +200,13 @@ Qed.
 (* the code's own duplicate rule, which needs no coherence: pairwise different (BaseHash, Nonce, NonceExtra) *)
 Theorem accepted_dup_free n b now n' amb :
   deliver cfg genesis_addr team_key n b now = (n', Accepted, amb) ->
-  b_height b <> 440 -> sides_dup_free (b_sides b) = true.
+  dup_checked cfg b -> sides_dup_free (b_sides b) = true.
 Proof.
   intros H Hh. destruct (deliver_accepted_inv _ _ _ _ _ H) as (Hpre & _). exact (prevalidate_dup_free _ _ Hpre Hh).
 Qed.
 
 (* ---------------- the combined statement ---------------- *)
-(* an accepted new block satisfies clauses 1-6, 8, 11 (height <> 440, coherent classes), 12, 13, 14 *)
+(* an accepted new block satisfies clauses 1-6, 8, 11 (where the duplicate tests run, coherent classes), 12, 13, 14 *)
 Theorem accepted_wellformed n b now n' amb :
   deliver cfg genesis_addr team_key n b now = (n', Accepted, amb) ->
   now + future_time_limit cfg * 1000 < two64 -> b_diff b * 2 < two128 ->
@@ -198,7 +214,7 @@ Theorem accepted_wellformed n b now n' amb :
   exists p, get_block n (prev_hash b) = Some p /\ get_block n (b_hash b) = None /\
     wf_pow cfg b = true /\ wf_diff cfg n p b = true /\ wf_height p b = true /\ wf_time cfg p b now = true /\
     wf_cd p b = true /\ wf_version cfg b = true /\ wf_chains cfg b = true /\
-    (b_height b <> 440 -> commits_coherent (b_sides b) -> wf_distinct b = true) /\
+    (dup_checked cfg b -> commits_coherent (b_sides b) -> wf_distinct b = true) /\
     wf_unref n b = true /\ wf_shared b = true /\ wf_sidework cfg b = true /\
     min_difficulty cfg <= b_diff b.
 Proof.
@@ -217,7 +233,7 @@ Theorem accepted_wellformed_code n b now n' amb :
   deliver cfg genesis_addr team_key n b now = (n', Accepted, amb) ->
   now + future_time_limit cfg * 1000 < two64 -> b_diff b * 2 < two128 ->
   (forall p, get_block n (prev_hash b) = Some p -> b_height p + 1 < two64) ->
-  b_height b <> 440 -> commits_coherent (b_sides b) ->
+  dup_checked cfg b -> commits_coherent (b_sides b) ->
   let c := wellformed cfg n b now in c = 0 \/ c = 7 \/ c = 9 \/ c = 10.
 Proof.
   intros H Hnow Hd Hh Hne Hc.
@@ -233,7 +249,7 @@ Corollary accepted_wellformed_modulo n b now n' amb p :
   deliver cfg genesis_addr team_key n b now = (n', Accepted, amb) ->
   now + future_time_limit cfg * 1000 < two64 -> b_diff b * 2 < two128 ->
   (forall p, get_block n (prev_hash b) = Some p -> b_height p + 1 < two64) ->
-  b_height b <> 440 -> commits_coherent (b_sides b) ->
+  dup_checked cfg b -> commits_coherent (b_sides b) ->
   get_block n (prev_hash b) = Some p -> wf_anc p b = true -> wf_size cfg b = true -> wf_nsides cfg b = true ->
   wellformed cfg n b now = 0.
 Proof.
@@ -244,6 +260,30 @@ Proof.
   specialize (C11 Hne Hc). unfold wellformed. rewrite Hp. cbn [first_fail].
   rewrite C1, C2, C3, C4, C5, C6, A7, C8, A9, A10, C11, C12, C13, C14. reflexivity.
 Qed.
+
+(* ---------------- configurations without checkpoints: no height is exempt ---------------- *)
+Section NoCheckpoints.
+Hypothesis Hcp : cp_max cfg = 0.
+
+Theorem accepted_dup_free_no_cp n b now n' amb :
+  deliver cfg genesis_addr team_key n b now = (n', Accepted, amb) -> sides_dup_free (b_sides b) = true.
+Proof. intros H. exact (accepted_dup_free _ _ _ _ _ H (dup_checked_no_cp _ _ Hcp)). Qed.
+
+Theorem accepted_distinct_no_cp n b now n' amb :
+  deliver cfg genesis_addr team_key n b now = (n', Accepted, amb) ->
+  commits_coherent (b_sides b) -> wf_distinct b = true.
+Proof. intros H. exact (accepted_distinct _ _ _ _ _ H (dup_checked_no_cp _ _ Hcp)). Qed.
+
+Theorem accepted_wellformed_code_no_cp n b now n' amb :
+  deliver cfg genesis_addr team_key n b now = (n', Accepted, amb) ->
+  now + future_time_limit cfg * 1000 < two64 -> b_diff b * 2 < two128 ->
+  (forall p, get_block n (prev_hash b) = Some p -> b_height p + 1 < two64) ->
+  commits_coherent (b_sides b) ->
+  let c := wellformed cfg n b now in c = 0 \/ c = 7 \/ c = 9 \/ c = 10.
+Proof.
+  intros H Hnow Hd Hh Hc. exact (accepted_wellformed_code _ _ _ _ _ H Hnow Hd Hh (dup_checked_no_cp _ _ Hcp) Hc).
+Qed.
+End NoCheckpoints.
 
 End WF2.
 
@@ -299,11 +339,11 @@ Proof.
   conj_split; vm_compute; reflexivity.
 Qed.
 
-(* ---- clause 11 at height 440: the code skips both duplicate tests for that height in EVERY network configuration
-   (the condition is "b.Height != 440", not tied to mainnet).  A chain of 439 blocks on the genesis block (hash of the
-   block of height j = j + 1, timestamps 15 s apart so that the difficulty stays 4, version 1 from height 3), then a
-   block of height 440 that lists the same side block twice: accepted, and the side block is counted twice in its
-   cumulative difficulty.  The same block one height lower is refused (607). *)
+(* ---- clause 11 at height 440.  Until /repo 7c12eb4 the code skipped both duplicate tests at that height in EVERY network
+   configuration (finding R22: the block [w2_twice 440] below was accepted on the verification network, replayed on the
+   implementation by the ledger scenario h440).  Now the tests are skipped only where height 440 lies under a checkpoint.
+   A chain of 439 blocks on the genesis block (hash of the block of height j = j + 1, timestamps 15 s apart so that the
+   difficulty stays 4, version 1 from height 3), then a block of height 440 that lists the same side block twice. *)
 Definition w2_hash (j : N) : N := j + 1.
 Definition w2_anc (i : N) : list N := [i; (if 2 <=? i then i - 1 else 0); (if 3 <=? i then i - 2 else 0)].
 Definition w2_cd (i : N) : N := if i <=? 2 then 1 + 4 * i else 9 + 2 * (i - 2).
@@ -316,20 +356,56 @@ Definition w2_twice (ht : N) : block :=
   mkblock (w2_hash ht) 1 ht (15000 * ht) (w2_anc ht) [s; s] 9 0 0 true 0 0 4 (w2_cd (ht - 1) + 4) [] [] 0 77
           (w2_cm (w2_hash ht) (w2_anc ht) (15000 * ht)) false.
 
-Theorem accepted_distinct_440_refuted :
+(* regression of R22: the former witness is refused by the duplicate test, and nothing else is wrong with it (the same
+   block with one of the two copies replaced by another sibling is accepted) *)
+Definition w2_two_sides (ht : N) : block :=
+  let s := w2_cm 900 (w2_anc (ht - 1)) (15000 * ht - 1) in
+  let s' := w2_cm 901 (w2_anc (ht - 1)) (15000 * ht - 2) in
+  mkblock (w2_hash ht) 1 ht (15000 * ht) (w2_anc ht) [s; s'] 9 0 0 true 0 0 4 (w2_cd (ht - 1) + 4) [] [] 0 77
+          (w2_cm (w2_hash ht) (w2_anc ht) (15000 * ht)) false.
+
+Example twice_440_verifnet_rejected :
+  node0 cfg_verifnet 7 wit_g = Ok w2_n0 /\
+  let n := run cfg_verifnet 7 0 w2_n0 (w2_chain 439) in
+  top_h n = 439 /\ b_height (w2_twice 440) = 440 /\ wf_distinct (w2_twice 440) = false /\
+  deliver cfg_verifnet 7 0 n (w2_twice 440) 6600000 = (n, Rejected 607, false) /\
+  snd (fst (deliver cfg_verifnet 7 0 n (w2_two_sides 440) 6600000)) = Accepted /\
+  wellformed cfg_verifnet n (w2_two_sides 440) 6600000 = 0.
+Proof. cbv zeta. conj_split; vm_compute; reflexivity. Qed.
+
+(* BY DESIGN: on mainnet height 440 lies under the embedded checkpoints (is_secured), the duplicate tests are skipped
+   there for the sake of the historical block 440, and the model shows what that admits: after 439 blocks that match
+   the checkpoints of their heights ([b_cp_match]; proof of work is not examined below the last checkpoint), a block of
+   height 440 with the same side block twice is accepted.  Only a chain that reproduces mainnet's checkpointed hashes
+   gets there, i.e. the real chain. *)
+Definition w2m_ts (i : N) : N := genesis_timestamp cfg_mainnet + 15000 * i.
+Definition w2m_g : block := genesis_block cfg_mainnet 7 1 123 (w2_cm 1 [0; 0; 0] (w2m_ts 0)).
+Definition w2m_n0 : node := match node0 cfg_mainnet 7 w2m_g with Ok n => n | _ => w2_dummy end.
+Definition w2m_block (i : N) : block :=
+  mkblock (w2_hash i) 0 i (w2m_ts i) (w2_anc i) [] 9 0 0 true 0 0 100000 (1 + 100000 * i) [] [] 0 (1000 + i)
+          (w2_cm (w2_hash i) (w2_anc i) (w2m_ts i)) true.
+Definition w2m_now : N := w2m_ts 440.
+Definition w2m_chain (k : nat) : list (block * N) := map (fun i => (w2m_block (N.of_nat i), w2m_now)) (seq 1 k).
+Definition w2m_twice (ht : N) : block :=
+  let s := w2_cm 900 (w2_anc (ht - 1)) (w2m_ts ht - 1) in
+  mkblock (w2_hash ht) 0 ht (w2m_ts ht) (w2_anc ht) [s; s] 9 0 0 true 0 0 100000 (1 + 100000 * (ht - 1) + 233333) [] [] 0 77
+          (w2_cm (w2_hash ht) (w2_anc ht) (w2m_ts ht)) false.
+
+Theorem accepted_distinct_440_mainnet_refuted :
   exists n b now n' amb,
-    node0 cfg_verifnet 7 wit_g = Ok w2_n0 /\ n = run cfg_verifnet 7 0 w2_n0 (w2_chain 439) /\
-    deliver cfg_verifnet 7 0 n b now = (n', Accepted, amb) /\ get_block n (b_hash b) = None /\
-    b_height b = 440 /\ commits_coherent (b_sides b) /\
-    wf_distinct b = false /\ sides_dup_free (b_sides b) = false /\ wellformed cfg_verifnet n b now = 11 /\
+    node0 cfg_mainnet 7 w2m_g = Ok w2m_n0 /\ n = run cfg_mainnet 7 0 w2m_n0 (w2m_chain 439) /\
+    deliver cfg_mainnet 7 0 n b now = (n', Accepted, amb) /\ get_block n (b_hash b) = None /\
+    b_height b = 440 /\ is_secured cfg_mainnet 440 = true /\ commits_coherent (b_sides b) /\
+    wf_distinct b = false /\ sides_dup_free (b_sides b) = false /\ wellformed cfg_mainnet n b now = 11 /\
     (* one height lower the same block is refused by the duplicate test *)
-    snd (fst (deliver cfg_verifnet 7 0 (run cfg_verifnet 7 0 w2_n0 (w2_chain 438)) (w2_twice 439) now)) = Rejected 607.
+    snd (fst (deliver cfg_mainnet 7 0 (run cfg_mainnet 7 0 w2m_n0 (w2m_chain 438)) (w2m_twice 439) now)) = Rejected 607.
 Proof.
-  exists (run cfg_verifnet 7 0 w2_n0 (w2_chain 439)), (w2_twice 440), 6600000,
-         (fst (fst (deliver cfg_verifnet 7 0 (run cfg_verifnet 7 0 w2_n0 (w2_chain 439)) (w2_twice 440) 6600000))),
-         (snd (deliver cfg_verifnet 7 0 (run cfg_verifnet 7 0 w2_n0 (w2_chain 439)) (w2_twice 440) 6600000)).
+  exists (run cfg_mainnet 7 0 w2m_n0 (w2m_chain 439)), (w2m_twice 440), w2m_now,
+         (fst (fst (deliver cfg_mainnet 7 0 (run cfg_mainnet 7 0 w2m_n0 (w2m_chain 439)) (w2m_twice 440) w2m_now))),
+         (snd (deliver cfg_mainnet 7 0 (run cfg_mainnet 7 0 w2m_n0 (w2m_chain 439)) (w2m_twice 440) w2m_now)).
   split; [vm_compute; reflexivity|]. split; [reflexivity|].
   split; [vm_compute; reflexivity|]. split; [vm_compute; reflexivity|]. split; [reflexivity|].
+  split; [vm_compute; reflexivity|].
   split; [intros s1 s2 [<-|[<-|[]]] [<-|[<-|[]]] _; reflexivity|].
   conj_split; vm_compute; reflexivity.
 Qed.
